@@ -148,6 +148,12 @@ func (m *boxModel) apply(fn string, args []string) (panics bool) {
 		if len(m.items) > 0 {
 			i := ai(0) % len(m.items)
 			m.items = append(m.items[:i:i], m.items[i+1:]...)
+			if len(m.recs) == 0 {
+				// box.gno computes i % len(recs) unguarded: with items non-empty (InsertItem into an
+				// empty slice adds an item but no rec) and recs empty the realm panics with a
+				// division by zero, so the message -- and the whole tx -- fails.
+				return true
+			}
 			j := i % len(m.recs)
 			m.recs = append(m.recs[:j:j], m.recs[j+1:]...)
 		}
